@@ -45,6 +45,10 @@
 import PercevalModel.Lemmas.C12
 import PercevalModel.Lemmas.C12Phase
 import PercevalModel.Lemmas.C12Solve
+import PercevalModel.Lemmas.C12Exist
+import PercevalModel.Lemmas.C12Bound
+import PercevalModel.Lemmas.C12Tri
+import PercevalModel.Lemmas.C12NearDiag
 import PercevalModel.Num.GQ
 import Mathlib.LinearAlgebra.Matrix.Notation
 import Mathlib.LinearAlgebra.Matrix.Block
@@ -648,5 +652,178 @@ example : solveCell (fun _ _ => [0]) false (1 : ℤ) (fun x : List ℤ => x.sum)
 /-- a partially imposed constraint: the imposed value lands at its own position, the free one is the minimiser's -/
 example : solve (fun _ _ => [-2]) false (1 : ℤ) (fun x : List ℤ => x.sum) [7, 9] [none, some 2] = some [-2, 2] := by
   rw [solve]; simp [firstSome, splice]; rw [solve]; simp [firstSome]
+
+end PM.C12
+
+
+/-! ### the existence clause as mathematics (`Model/C12Block.lean`, `Lemmas/C12Exist.lean`)
+
+For the two blocks the check claims existence for, the equation `decompose_triangle` hands to the solver
+(`cU_inv[0,0]·u[n,j] + cU_inv[0,1]·u[n+1,j] = 0`, `cU_inv` the inverse of the block's matrix) has a solution for
+EVERY pair of complex numbers, given in closed form: one parameter from the moduli, one from the arguments.  The
+blocks' parameters are periodic, so `decompose_triangle` passes no bounds and every real value is admissible.  A
+`None` of `decompose_triangle` with one of these blocks and an unrestricted constraint is therefore a failure of the
+numerical minimiser, never of the mathematics. -/
+
+namespace PM.C12
+
+open Solve
+
+/-- the matrix the equation is built from is the inverse of `BS(theta) // PS(phi)` as built (PS after the BS.Rx),
+on both sides, at all real parameter values -/
+theorem bsPs_equation_uses_inverse (θ φ : ℝ) :
+    bsPsInvC θ φ * bsPsC θ φ = 1 ∧ bsPsC θ φ * bsPsInvC θ φ = 1 :=
+  ⟨bsPsInvC_mul_bsPsC θ φ, bsPsC_mul_bsPsInvC θ φ⟩
+
+/-- `BS(theta) // PS(phi)`: for every `a = u[n,j]`, `b = u[n+1,j]` (both zero included) the parameters
+`theta = π if b = 0 else 2·arctan(|a|/|b|)`, `phi = arg a − arg b − π/2` null the equation exactly -/
+theorem bsPs_exists_nulling_parameters (a b : ℂ) :
+    nullEq (bsPsInvC (bsPsTheta a b) (bsPsPhi a b)) a b = 0 := bsPs_nulls' a b
+
+/-- `catalog['mzi phase last']` as built (`BS·PS(φ_a)·BS·PS(φ_b)`, phase shifters on mode 1, `BS = BS.Rx(π/2)`) has
+the closed form `mziMat`, and the matrix the equation is built from is its inverse -/
+theorem mzi_equation_uses_inverse (φa φb : ℝ) :
+    mziC φa φb = mziMat Complex.I (1 / 2) (Complex.exp (φa * Complex.I)) (Complex.exp (φb * Complex.I)) ∧
+      mziInvC φa φb * mziC φa φb = 1 :=
+  ⟨mziC_eq_mziMat φa φb, mziInvC_mul_mziC φa φb⟩
+
+/-- the MZI: for every `a`, `b` the parameters `phi_a = π if a = 0 else 2·arctan(|b|/|a|)`, `phi_b = arg b − arg a`
+null the equation exactly -/
+theorem mzi_exists_nulling_parameters (a b : ℂ) :
+    nullEq (mziInvC (mziPhiA a b) (mziPhiB a b)) a b = 0 := mzi_nulls' a b
+
+/-- hence, in the model of `solve` (`Model/C12Solve.lean`) with the unrestricted constraint `(None, None)`: there is
+a value of the minimiser (the closed form) for which `solve` hands back parameters, for every non-negative precision,
+every starting point and every pair `(a, b)` — for both blocks.  `g(x) = |equation|` exactly as in the code. -/
+theorem universal_block_solve_succeeds (a b : ℂ) (prec : ℝ) (hp : 0 ≤ prec) (x0 : List ℝ) (hx0 : x0 ≠ []) :
+    solve (fun _ _ => [bsPsTheta a b, bsPsPhi a b]) false prec
+        (fun x => ‖nullEq (bsPsInvC (x.getD 0 0) (x.getD 1 0)) a b‖) x0 [none, none]
+      = some [bsPsTheta a b, bsPsPhi a b] ∧
+    solve (fun _ _ => [mziPhiA a b, mziPhiB a b]) false prec
+        (fun x => ‖nullEq (mziInvC (x.getD 0 0) (x.getD 1 0)) a b‖) x0 [none, none]
+      = some [mziPhiA a b, mziPhiB a b] := by
+  constructor
+  · refine solve_free_accepts (fun _ _ => [bsPsTheta a b, bsPsPhi a b]) prec _ x0 hx0 2 ?_
+    simp only [List.getD_cons_zero, List.getD_cons_succ]
+    rw [bsPs_exists_nulling_parameters, norm_zero]
+    exact hp
+  · refine solve_free_accepts (fun _ _ => [mziPhiA a b, mziPhiB a b]) prec _ x0 hx0 2 ?_
+    simp only [List.getD_cons_zero, List.getD_cons_succ]
+    rw [mzi_exists_nulling_parameters, norm_zero]
+    exact hp
+
+/-- non-vacuity / regression value: for the second column `(a, b) = (0, 1)` of the identity the closed form gives
+`theta = 0` (the beam splitter is the identity) -/
+example : bsPsTheta 0 1 = 0 := by simp [bsPsTheta]
+
+/-! ### the size of the floating residue (`Lemmas/C12Bound.lean`, `C12Tri.lean`, `C12NearDiag.lean`)
+
+`triangle_reconstruct_with_error` is exact.  Here the error term is bounded: over ℂ, in the Frobenius norm `frob`
+(`Lemmas/C12Frob.lean`), with unitary blocks. -/
+
+/-- the final `u` of `decompose_triangle` is lower triangular — for every commutative ring, threshold, flag
+combination and solver: every entry above the diagonal is overwritten in its own cell and never touched again -/
+theorem final_u_lower_triangular [CommRing R] (cfg : Cfg R) {m : ℕ} (U : Matrix (Fin m) (Fin m) R)
+    (sols : List (Sol R)) (st : St R m) (h : decomposeTriangle cfg U sols = some st) :
+    ∀ a b : Fin m, a < b → st.u.toMatrix a b = 0 :=
+  decomposeTriangle_lower cfg U sols st h
+
+/-- what `trace` records: in a cell where the solver was not called the overwritten value passed the threshold test
+`abs(x) <= precision`; in a solved cell it is the value of the equation at the block used (the quantity whose modulus
+`solve` accepted: `solved_cell_residue_le_precision`) -/
+theorem overwritten_values [CommRing R] (cfg : Cfg R) {m : ℕ} (U : Matrix (Fin m) (Fin m) R) (sols : List (Sol R)) :
+    ∀ r ∈ trace cfg (initSt U sols) (cells m),
+      (r.solved = false → cfg.small r.z = true) ∧
+      (r.solved = true → ∃ B Binv, r.z = nullEq Binv r.a r.b ∧ (B, Binv) ∈ sols) :=
+  trace_spec cfg (cells m) (cells_ok m) (initSt U sols)
+
+/-- `(#cells)`: the double loop has `m(m−1)/2` cells -/
+theorem number_of_cells (m : ℕ) : (cells m).length * 2 = m * (m - 1) := cells_length m
+
+/-- `residue_bound`.  With unitary blocks (whatever the matrix `U`, the thresholds, the solver): the product of the
+returned components times the final `u` differs from `U`, in Frobenius norm, by at most the sum of the moduli of the
+overwritten entries — hence by at most `(#cells)·ε` when each of them is at most `ε`. -/
+theorem residue_bound (cfg : Cfg ℂ) {m : ℕ} (U : Matrix (Fin m) (Fin m) ℂ) (sols : List (Sol ℂ))
+    (hgood : ∀ s ∈ sols, s.1 * s.2 = 1) (hunit : ∀ s ∈ sols, IsUnitary s.1)
+    (st : St ℂ m) (h : decomposeTriangle cfg U sols = some st) :
+    IsUnitary (circMat m st.comps) ∧
+    frob (U - circMat m st.comps * st.u.toMatrix) ≤
+      ((trace cfg (initSt U sols) (cells m)).map fun r => ‖r.z‖).sum ∧
+    ∀ ε : ℝ, 0 ≤ ε → (∀ r ∈ trace cfg (initSt U sols) (cells m), ‖r.z‖ ≤ ε) →
+      frob (U - circMat m st.comps * st.u.toMatrix) ≤ ((cells m).length : ℝ) * ε := by
+  have hrec := triangle_reconstruct_with_error cfg U sols hgood st h
+  obtain ⟨hQ, hle⟩ := run_err_bound cfg (cells m) (cells_ok m) (st := initSt U sols) (st' := st) h
+    (show UnitarySols (initSt U sols).rest from hunit) (by simp [initSt, isUnitary_one])
+  have e : U - circMat m st.comps * st.u.toMatrix = st.err.toMatrix := by
+    rw [← hrec]; abel
+  have h0 : frob (initSt U sols).err.toMatrix = 0 := by simp [initSt, frob_zero]
+  rw [h0, zero_add] at hle
+  refine ⟨hQ, by rw [e]; exact hle, ?_⟩
+  intro ε hε0 hε
+  rw [e]
+  refine le_trans hle ?_
+  have h1 : ((trace cfg (initSt U sols) (cells m)).map fun r => ‖r.z‖).sum ≤
+      ((trace cfg (initSt U sols) (cells m)).map fun r => ‖r.z‖).length • ε := by
+    apply List.sum_le_card_nsmul
+    intro x hx
+    simp only [List.mem_map] at hx
+    obtain ⟨r, hr, rfl⟩ := hx
+    exact hε r hr
+  refine le_trans h1 ?_
+  rw [List.length_map, nsmul_eq_mul]
+  apply mul_le_mul_of_nonneg_right _ hε0
+  exact_mod_cast trace_length_le cfg (cells m) (initSt U sols)
+
+/-- `decomposition_error_bound`.  The perturbation theorem that replaces the measured tolerance: `U` unitary, every
+block the solver produced unitary, `δ` a bound on the sum of the moduli of the overwritten entries (`δ = (#cells)·ε`
+when each is at most `ε`, the `precision` test of the code).  Then the circuit WITH the phase layer — the phase
+shifters realising the unit-modulus phases of the diagonal of the final `u`, as `add_phases` computes them — has a
+matrix within `(√(m−1) + 2)·δ + m·δ²` of `U` in Frobenius norm (so in every entry).  No assumption on the final `u`:
+it is lower triangular by `final_u_lower_triangular` and near a unitary, hence near its own diagonal of phases
+(`lower_triangular_near_unitary_near_diagonal`). -/
+theorem decomposition_error_bound (cfg : Cfg ℂ) {m : ℕ} (U : Matrix (Fin m) (Fin m) ℂ) (hU : IsUnitary U)
+    (sols : List (Sol ℂ)) (hgood : ∀ s ∈ sols, s.1 * s.2 = 1) (hunit : ∀ s ∈ sols, IsUnitary s.1)
+    (st : St ℂ m) (h : decomposeTriangle cfg U sols = some st)
+    (δ : ℝ) (hδ : ((trace cfg (initSt U sols) (cells m)).map fun r => ‖r.z‖).sum ≤ δ)
+    (keep : ℂ → Bool) (hkeep : ∀ z, keep z = false → z = 1) :
+    frob (U - circMat m (addPhases keep (fun i => phase (st.u.toMatrix i i)) ++ st.comps)) ≤
+      (Real.sqrt ((m : ℝ) - 1) + 2) * δ + (m : ℝ) * δ ^ 2 := by
+  obtain ⟨hQ, hres, -⟩ := residue_bound cfg U sols hgood hunit st h
+  have hrec := triangle_reconstruct_with_error cfg U sols hgood st h
+  set Q := circMat m st.comps with hQdef
+  set u := st.u.toMatrix with hudef
+  set P : Fin m → ℂ := fun i => phase (u i i) with hPdef
+  have hres' : frob (U - Q * u) ≤ δ := le_trans hres hδ
+  -- the circuit with the phase layer
+  have hcirc : circMat m (addPhases keep P ++ st.comps) = Q * Matrix.diagonal P := by
+    rw [circMat_append, phases_realise_diag]
+    congr 2
+    funext i
+    by_cases hk : keep (P i) = true
+    · simp [hk]
+    · simp only [hk]
+      exact (hkeep _ (by simpa using hk)).symm
+  -- `W = Qᴴ U` is unitary and within `δ` of `u`
+  have hQh : IsUnitary Qᴴ := ⟨by rw [conjTranspose_conjTranspose]; exact hQ.2,
+    by rw [conjTranspose_conjTranspose]; exact hQ.1⟩
+  have hW := hQh.mul hU
+  have hWu : Qᴴ * U - u = Qᴴ * (U - Q * u) := by
+    rw [Matrix.mul_sub, ← Matrix.mul_assoc, hQ.2, Matrix.one_mul]
+  have hWu' : frob (Qᴴ * U - u) ≤ δ := by
+    rw [hWu, frob_unitary_mul _ (by rw [conjTranspose_conjTranspose]; exact hQ.1)]
+    exact hres'
+  have hdiag := lower_triangular_near_unitary_near_diagonal u (Qᴴ * U)
+    (final_u_lower_triangular cfg U sols st h) hW.1 hW.2 δ hWu'
+  -- put the two together
+  have hsplit : U - Q * Matrix.diagonal P = (U - Q * u) + Q * (u - Matrix.diagonal P) := by
+    rw [Matrix.mul_sub]; abel
+  rw [hcirc, hsplit]
+  refine le_trans (frob_add_le _ _) ?_
+  rw [frob_unitary_mul _ hQ.2]
+  have : frob (u - Matrix.diagonal P) ≤ (Real.sqrt ((m : ℝ) - 1) + 1) * δ + (m : ℝ) * δ ^ 2 := hdiag
+  linarith
+
+/-- the hypotheses of `residue_bound` / `decomposition_error_bound` are satisfiable (the identity, no cell solved) -/
+example : IsUnitary (1 : Matrix (Fin 2) (Fin 2) ℂ) := isUnitary_one
 
 end PM.C12
